@@ -19,7 +19,7 @@ def sh(cmd, cwd=None, timeout=7200, env=None):
 
 def main():
     a = sys.argv[1:]
-    src, sid = a[0], a[1]
+    src, sid = os.path.abspath(a[0]), a[1]
     checks = None
     tier = "quick"
     skip_suite = "--skip-suite" in a
